@@ -1113,7 +1113,7 @@ def selfcheck():
 
 
 SUBCHECKS = [
-    SubCheck('direct', lambda: DIRECT, run_direct, quick=1000, thorough=24000),
-    SubCheck('history', lambda: HISTORY, run_history, quick=800, thorough=20000),
+    SubCheck('direct', lambda: DIRECT, run_direct, quick=1000, thorough=20530),
+    SubCheck('history', lambda: HISTORY, run_history, quick=800, thorough=16420),
     SubCheck('eq_total', lambda: EQSPEC, run_eq_total, quick=96, thorough=400),
 ]
